@@ -285,6 +285,11 @@ mod views;
 mod zalsa;
 mod zalsa_local;
 
+/// Verification hooks (trace sink and test-only re-exports); compiled only with the
+/// `verif_hooks` cargo feature, never part of a normal build.
+#[cfg(feature = "verif_hooks")]
+pub mod verif_hooks;
+
 #[cfg(not(feature = "inventory"))]
 mod nonce;
 
